@@ -79,7 +79,11 @@ def run(chk):
         C06.check_constructor(s2, pr, sm)
         chk.evaluated(1, nontrivial=(key0, cfgname))
         for v in s2.violations:
-            if ":ordering:assert" in v["key"]:
+            if ":ordering:never-returns" in v["key"] or "never-returns" in v["key"]:
+                chk.violation("C07.accept", "%s:never-accepts@%s" % (key0, cfgname), "[%s] MotionProfile::new has no returning path: every move, however comfortable, is rejected (%s)"
+                              % ("release profile / checks compiled out" if cfgname == "K6" else "debug profile", v["what"]), **v.get("detail", {}))
+                okc = False
+            elif ":ordering:assert" in v["key"]:
                 chk.violation("C07.accept", "%s:%s@%s" % (key0, v["key"].split(":")[-1], cfgname), "[%s] MotionProfile::new accepts moves that are not feasible trapezoids (%s): velocity/position continuity and arrival at the goal are only guaranteed for 0 <= t1 <= t2 <= t3"
                               % ("release profile" if cfgname == "K6" else "debug profile", v["what"]), **v.get("detail", {}))
                 okc = False
